@@ -103,11 +103,15 @@ func TestPropRequestDestination(t *testing.T) {
 		cl.Auth.Enabled = true
 		cl.Auth.NTSKEFetcher = ntske.Fetcher{Log: cl.Log, Port: strconv.Itoa(ke.Addr.Port),
 			TLSConfig: tls.Config{NextProtos: []string{"ntske/1"}, InsecureSkipVerify: true, ServerName: c.Host, MinVersion: tls.VersionTLS13}}
-		ctx, cancel := context.WithTimeout(context.Background(), 150*time.Millisecond)
-		// the configured NTP address is irrelevant once the exchange names one; give it a port nobody listens on
-		_, _, err := client.MeasureClockOffsetIP(ctx, cl.Log, cl, &net.UDPAddr{IP: net.IPv4(127, 0, 0, 1)}, &net.UDPAddr{IP: net.IPv4(127, 0, 0, 1), Port: 9})
-		cancel()
-		ke.Wait()
+		var err error
+		attempt := func(d time.Duration) {
+			ctx, cancel := context.WithTimeout(context.Background(), d)
+			// the configured NTP address is irrelevant once the exchange names one; give it a port nobody listens on
+			_, _, err = client.MeasureClockOffsetIP(ctx, cl.Log, cl, &net.UDPAddr{IP: net.IPv4(127, 0, 0, 1)}, &net.UDPAddr{IP: net.IPv4(127, 0, 0, 1), Port: 9})
+			cancel()
+			ke.Wait()
+		}
+		attempt(150 * time.Millisecond)
 		wantIP := "127.0.0.1"
 		if c.Server != "" && c.Server != "localhost" {
 			wantIP = c.Server
@@ -118,17 +122,25 @@ func TestPropRequestDestination(t *testing.T) {
 		}
 		want := net.JoinHostPort(wantIP, strconv.Itoa(wantPort))
 		got := map[string]int{}
-		for name, s := range socks {
-			for {
-				s.SetReadDeadline(time.Now().Add(2 * time.Millisecond))
-				n, _, rerr := s.ReadFromUDP(buf)
-				if rerr != nil {
-					break
-				}
-				if n > 48 {
-					got[name]++
+		collect := func() {
+			for name, s := range socks {
+				for {
+					s.SetReadDeadline(time.Now().Add(2 * time.Millisecond))
+					n, _, rerr := s.ReadFromUDP(buf)
+					if rerr != nil {
+						break
+					}
+					if n > 48 {
+						got[name]++
+					}
 				}
 			}
+		}
+		collect()
+		if len(got) == 0 {
+			// nothing arrived anywhere: the short deadline may have run out before the request was sent; once more, generously
+			attempt(time.Second)
+			collect()
 		}
 		if got[want] != 1 || len(got) != 1 {
 			t.Fatalf("configured key-exchange host %q, server record %q, port record %d: NTS request expected at %s, requests seen %v (client error: %v)", c.Host, c.Server, c.Port, want, got, err)
